@@ -507,6 +507,24 @@ def template_programs(rng):
             m = proc(False, [], ['i'], seq([ass(var('i'), num(0)), whl(bi('<', var('i'), num(2)), ass(var('i'), bi('+', var('i'), num(1)))),
                                             iff(bi('=', call(nm, [num(1)]), num(10)), putc(num(89)), putc(num(78))), exit_(bi('+', call(nm, [var('i')]), call(nm, [num(5)])))]))
             out.append(('barename:%s:%d' % (nm, order), program([], {}, {nm: p, 'main': m}, {}, {}, [nm, 'main'] if order == 0 else ['main', nm])))
+    # an array-element actual whose subscript holds a call, after actuals the callee uses as an address and as a subscript
+    fill = proc(False, [('array', 'v'), ('val', 'i'), ('val', 'p')], [], ass(idx('v', var('i')), var('p')))
+    addto = proc(True, [('array', 'v'), ('val', 'i'), ('val', 'p')], ['t'], seq([ass(var('t'), bi('+', idx('v', var('i')), var('p'))), ass(idx('v', var('i')), var('t')), ret(var('t'))]))
+    for k, (i_e, sub) in enumerate(((num(2), call('id', [num(1)])), (call('id', [num(1)]), call('id', [num(2)])), (num(1), call('cnt', [])),
+                                     (num(3), call('add', [num(1), num(1)])), (num(0), call('at', [var('b'), num(1)])))):
+        pre = init_stmts(rng) + [ass(idx('b', num(i)), num(i + 1)) for i in range(4)]
+        out.append(('subcall:proc:%d' % k, std_program(seq(pre + [callst(call('fill', [var('a'), i_e, idx('b', sub)])), putc(idx('a', num(0))), putc(idx('a', num(1))),
+                                                            putc(idx('a', num(2))), exit_(idx('a', num(3)))]), {'fill': fill})))
+        out.append(('subcall:func:%d' % k, std_program(seq(pre + [putc(call('addto', [var('a'), i_e, idx('b', sub)])), putc(idx('a', num(1))), exit_(idx('a', num(2)))]), {'addto': addto})))
+    # pairs of procedure names one of which extends the other the way a generated label might (P / P_exit, P_end, P_body, ...)
+    for suffix in ('_exit', '_entry', '_end', '_ret', '_body', '_frame', '_1', '0', '_'):
+        for order in (0, 1):
+            a = proc(True, [('val', 'q')], ['t'], seq([ass(var('t'), bi('+', var('q'), num(1))), iff(bi('<', var('q'), num(3)), ret(var('t')), skip()), ret(bi('+', var('t'), num(20)))]))
+            b = proc(False, [('val', 'q')], ['u', 'w'], seq([ass(var('u'), var('q')), ass(var('w'), bi('+', var('u'), num(48))), putc(var('w'))]))
+            m = proc(False, [], ['i'], seq([ass(var('i'), num(2)), callst(call('tk' + suffix, [num(3)])), putc(bi('+', num(60), call('tk', [var('i')]))), callst(call('tk' + suffix, [num(5)])),
+                                            exit_(bi('+', call('tk', [num(1)]), call('tk', [num(7)])))]))
+            names = ['tk', 'tk' + suffix, 'main'] if order == 0 else ['tk' + suffix, 'main', 'tk']
+            out.append(('pairname:%s:%d' % (suffix, order), program([], {}, {'tk': a, 'tk' + suffix: b, 'main': m}, {}, {}, names)))
     # programs without any global: the start-up code and exit stub work at the very top of memory
     out.append(('bare:skip', program([], {}, {'main': proc(False, [], [], skip())}, {}, {}, ['main'])))
     out.append(('bare:exit', program([], {}, {'main': proc(False, [], [], exit_(num(9)))}, {}, {}, ['main'])))
